@@ -382,7 +382,11 @@ def sim_inputs(spec):
                         **kw)
     c = n*50.0
     src = [emg3d.TxElectricDipole((c - 40 + 70*i, c + 10, -c + 20, 25.*i,
-                                   5.*i), strength=1 + 0.5j*i)
+                                   5.*i),
+                                  # (the 1-D modeller of the layered mode
+                                  # takes real source strengths only)
+                                  strength=1 + 0.5*i if spec.get('layered')
+                                  else 1 + 0.5j*i)
            for i in range(2)]
     rec = [emg3d.RxElectricPoint((c + 60, c - 30, -c - 10, 0, 0)),
            emg3d.RxMagneticPoint((20., 15., 5., 30, 10), relative=True)]
@@ -416,6 +420,9 @@ def make_simulation(spec, tmp):
             s_: {f_: (g2, g)[(i + j) % 2]
                  for j, f_ in enumerate(survey.frequencies)}
             for i, s_ in enumerate(survey.sources)}
+    if spec.get('layered'):
+        gkw['layered'] = True
+        gkw['layered_opts'] = {'method': spec['layered']}
     sim = emg3d.Simulation(
         survey, model, max_workers=1, verb=-1, **gkw,
         tqdm_opts=False, receiver_interpolation='linear',
@@ -576,6 +583,11 @@ def zoo_specs(tier):
         for what in whats:
             out.append({'kind': 'simulation', 'variant': v, 'what': what,
                         'n': 4})
+    for lay in ('midpoint', 'cylinder'):
+        for v, what in (('plain', 'plain'), ('computed', 'computed'),
+                        ('misfit', 'results'), ('gradient', 'computed')):
+            out.append({'kind': 'simulation', 'variant': v, 'what': what,
+                        'n': 4, 'layered': lay})
     for gr in ('input', 'dict'):
         for v, what in (('plain', 'plain'), ('computed', 'computed'),
                         ('gradient', 'results')):
